@@ -11,6 +11,11 @@ VIEW_ATTRS_FRESH = set()     # attribute reads never create fresh storage
 
 FRESH_CALLS = ('copy', 'deepcopy', 'astype', 'tolist', 'item')
 
+ALIASING_FUNCS = frozenset((
+    'numpy.asarray', 'numpy.asanyarray', 'numpy.ascontiguousarray',
+    'numpy.atleast_1d', 'numpy.atleast_2d', 'numpy.ravel', 'numpy.reshape',
+    'numpy.squeeze', 'numpy.transpose', 'numpy.asfarray'))
+
 
 def roots(t, depth=0):
     """Set of root descriptors of the storage term t may alias."""
@@ -59,6 +64,9 @@ def roots(t, depth=0):
                 'stack', 'unstack'):
             # may return a view / element of the receiver
             return roots(f[1], depth + 1) | {('maybe-fresh',)}
+        if f in ALIASING_FUNCS and t[2]:
+            # np.asarray(x) *is* x when x already is an array of that type
+            return roots(t[2][0], depth + 1) | {('maybe-fresh',)}
         return {('fresh',)}
     if k in ('list', 'tuple', 'dict', 'set', 'new', 'bin', 'un', 'num', 'const',
              'cmp', 'bool', 'comp', 'closure', 'fstr', 'I'):
